@@ -224,29 +224,77 @@ def inline_helpers(repo, module, expr, depth=0, skip=()):
 
 
 def splice_self_calls(ci, fnode, depth=0):
-    """statement-level inlining of parameterless private helpers:  `self._step()`  (an expression statement, helper takes only self and
-    returns nothing)  is replaced by a copy of the helper's body, so that path rules over a method see through `split a long method`"""
+    """statement-level inlining of private helper methods of the same class, so that path / ownership rules over a method see
+    through `split a long method`:
+        self._step(a, b)          (expression statement; helper returns nothing)      ->  p1 = a; p2 = b; <body>
+        x = self._make(a)         (helper: simple body ending in one `return E`)      ->  p1 = a; <body without return>; x = E
+    Only helpers whose name starts with an underscore are spliced (public methods are API of their own)."""
     import copy as _copy
     if depth > 3:
         return fnode
     out = _copy.deepcopy(fnode) if depth == 0 else fnode
 
+    def helper_of(call):
+        if not (isinstance(call, ast.Call) and isinstance(call.func, ast.Attribute) and isinstance(call.func.value, ast.Name) and
+                call.func.value.id == "self" and call.func.attr.startswith("_") and not call.func.attr.startswith("__")):
+            return None
+        m = ci.find_method(call.func.attr)
+        if m is None or m.node is fnode or m.node.args.vararg or m.node.args.kwarg or any(isinstance(a, ast.Starred) for a in call.args):
+            return None
+        if any(isinstance(y, (ast.Yield, ast.YieldFrom)) for y in ast.walk(m.node)):
+            return None
+        return m
+
+    def bind(m, call):
+        params = [a.arg for a in m.node.args.posonlyargs + m.node.args.args][1:]
+        b = {}
+        for k, a in enumerate(call.args):
+            if k < len(params):
+                b[params[k]] = a
+        for kw in call.keywords:
+            if kw.arg:
+                b[kw.arg] = kw.value
+        pos = (m.node.args.posonlyargs + m.node.args.args)[1:]
+        for a, d in zip(pos[len(pos) - len(m.node.args.defaults):], m.node.args.defaults):
+            b.setdefault(a.arg, d)
+        if any(p_ not in b for p_ in params):
+            return None
+        return [ast.Assign(targets=[ast.Name(id=p_, ctx=ast.Store())], value=_copy.deepcopy(v_)) for p_, v_ in b.items()
+                if not (isinstance(v_, ast.Name) and v_.id == p_)]
+
+    def body_of(m):
+        body = [b for b in _copy.deepcopy(m.node.body)
+                if not (isinstance(b, ast.Expr) and isinstance(b.value, ast.Constant) and isinstance(b.value.value, str))]
+        return body
+
     def splice(stmts):
         res = []
         for s in stmts:
-            if isinstance(s, ast.Expr) and isinstance(s.value, ast.Call) and isinstance(s.value.func, ast.Attribute) and \
-                    isinstance(s.value.func.value, ast.Name) and s.value.func.value.id == "self" and not s.value.args and not s.value.keywords:
-                m = ci.find_method(s.value.func.attr)
-                if m is not None and len(m.node.args.args) == 1 and not m.node.args.kwonlyargs and not m.node.args.vararg and \
-                        not any(isinstance(r, ast.Return) and r.value is not None for r in ast.walk(m.node)) and \
-                        not any(isinstance(y, (ast.Yield, ast.YieldFrom)) for y in ast.walk(m.node)):
-                    body = [b for b in _copy.deepcopy(m.node.body)
-                            if not (isinstance(b, ast.Expr) and isinstance(b.value, ast.Constant) and isinstance(b.value.value, str))]
-                    body = [b for b in body if not (isinstance(b, ast.Return) and b.value is None)]
-                    tmp = ast.FunctionDef(name="_", args=m.node.args, body=body or [ast.Pass()], decorator_list=[], returns=None, type_comment=None)
-                    tmp = splice_self_calls(ci, tmp, depth + 1)
-                    res.extend(tmp.body)
-                    continue
+            done = False
+            if isinstance(s, ast.Expr):
+                m = helper_of(s.value)
+                if m is not None and not any(isinstance(r, ast.Return) and r.value is not None for r in ast.walk(m.node)):
+                    pre = bind(m, s.value)
+                    if pre is not None:
+                        body = [b for b in body_of(m) if not (isinstance(b, ast.Return) and b.value is None)]
+                        tmp = ast.FunctionDef(name="_", args=m.node.args, body=body or [ast.Pass()], decorator_list=[], returns=None, type_comment=None)
+                        tmp = splice_self_calls(ci, tmp, depth + 1)
+                        res.extend(splice(pre) + tmp.body)
+                        done = True
+            elif isinstance(s, ast.Assign) and len(s.targets) == 1 and isinstance(s.targets[0], ast.Name):
+                m = helper_of(s.value)
+                if m is not None:
+                    body = body_of(m)
+                    rets = [r for b in body for r in ast.walk(b) if isinstance(r, ast.Return)]
+                    if body and isinstance(body[-1], ast.Return) and body[-1].value is not None and len(rets) == 1:
+                        pre = bind(m, s.value)
+                        if pre is not None:
+                            tmp = ast.FunctionDef(name="_", args=m.node.args, body=body[:-1] or [ast.Pass()], decorator_list=[], returns=None, type_comment=None)
+                            tmp = splice_self_calls(ci, tmp, depth + 1)
+                            res.extend(splice(pre) + tmp.body + [ast.Assign(targets=[s.targets[0]], value=body[-1].value)])
+                            done = True
+            if done:
+                continue
             for f in ("body", "orelse", "finalbody"):
                 b = getattr(s, f, None)
                 if isinstance(b, list) and b and isinstance(b[0], ast.stmt):
@@ -256,3 +304,22 @@ def splice_self_calls(ci, fnode, depth=0):
     out.body = splice(out.body)
     ast.fix_missing_locations(out)
     return out
+
+
+def helper_closure(ci, root_names):
+    """private methods of the class all of whose self-call sites lie in `root_names` or in such helpers (fixpoint)"""
+    callers = {}
+    for c in ci.mro():
+        for name, fi in c.methods.items():
+            for n in ast.walk(fi.node):
+                if isinstance(n, ast.Call) and isinstance(n.func, ast.Attribute) and isinstance(n.func.value, ast.Name) and n.func.value.id == "self":
+                    callers.setdefault(n.func.attr, set()).add(name)
+    closed = set(root_names)
+    changed = True
+    while changed:
+        changed = False
+        for m, cs in callers.items():
+            if m not in closed and m.startswith("_") and not m.startswith("__") and cs and cs <= closed:
+                closed.add(m)
+                changed = True
+    return closed
